@@ -146,7 +146,7 @@ func (f *folder) str(v ssa.Value, depth int) (string, bool) {
 
 // regexGlobals returns the folded pattern of every package variable initialised with
 // regexp.MustCompile / Compile.
-func (f *folder) regexGlobals() map[string]string {
+func (f *folder) regexGlobals(fns []*ssa.Function) map[string]string {
 	out := map[string]string{}
 	for g, v := range f.stores {
 		c, ok := v.(*ssa.Call)
@@ -215,6 +215,39 @@ func (f *folder) regexGlobals() map[string]string {
 			out[g.Name()] = "\x00unfoldable"
 		}
 	}
+	// the grammar is what references are matched against: a pattern that is only used to rewrite or
+	// split a string (ReplaceAll*, Split) is not part of it
+	if f.init != nil && f.init.Pkg != nil {
+		match, other := map[string]bool{}, map[string]bool{}
+		for _, fn := range fns {
+			for _, g := range []*ssa.Function{fn} {
+				core.Calls(g, func(c ssa.CallInstruction) {
+					cal := core.Callee(c)
+					if cal == nil || !core.IsNamed(core.CallArg(c, 0).Type(), "regexp", "Regexp") {
+						return
+					}
+					ld, ok := core.CallArg(c, 0).(*ssa.UnOp)
+					if !ok {
+						return
+					}
+					gl, ok := ld.X.(*ssa.Global)
+					if !ok {
+						return
+					}
+					if strings.HasPrefix(cal.Name(), "Match") || strings.HasPrefix(cal.Name(), "Find") {
+						match[gl.Name()] = true
+					} else {
+						other[gl.Name()] = true
+					}
+				})
+			}
+		}
+		for name := range out {
+			if other[name] && !match[name] {
+				delete(out, name)
+			}
+		}
+	}
 	return out
 }
 
@@ -225,7 +258,7 @@ func runC15(p *core.Prog, r *core.Report) {
 		return
 	}
 	f := newFolder(sp)
-	pats := f.regexGlobals()
+	pats := f.regexGlobals(pkgFuncs(p, "types/ref"))
 	c15R1R2(p, r, pats)
 	c15R3(p, r)
 	c15R4(p, r)
